@@ -8,6 +8,7 @@ mod c06;
 mod cmodel;
 mod oracle;
 mod c08;
+mod c10;
 mod tok;
 mod c11;
 mod c13;
@@ -164,6 +165,7 @@ fn main() {
         "C05" => c0235::run_c05(&ctx),
         "C06" => c06::run(&ctx),
         "C08" => c08::run(&ctx),
+        "C10" => c10::run(&ctx),
         "C11" => c11::run(&ctx),
         "C13" => c13::run(&ctx),
         "C14" => c14::run(&ctx),
